@@ -681,6 +681,29 @@ func (se *specEnv) call(e *SExpr) SVal {
 			}
 		}
 		sfail("no skolem function %s@%s", label, site)
+	case "call":
+		// call("pkg.Func", args...): the value of a pure function in the current state
+		key := e.Args[0].Str
+		target := f.ctx.eng.fnByKey[key]
+		if target == nil {
+			sfail("call: unknown function %q", key)
+		}
+		ct := f.ctx.eng.contractFor(target)
+		if ct == nil || !ct.Pure {
+			sfail("call: %s has no `pure` contract", key)
+		}
+		var args []Val
+		for _, a := range e.Args[1:] {
+			args = append(args, se.eval(a).V)
+		}
+		v, ok := f.pureCall(se.cur, True, target, TMap{}, ct, args, token.NoPos)
+		if !ok {
+			sfail("call: %s cannot be treated as pure here", key)
+		}
+		if tv, isT := v.(TupleVal); isT {
+			return SVal{tv, nil}
+		}
+		return SVal{v, target.Signature.Results().At(0).Type()}
 	case "typeid":
 		x := se.eval(e.Args[0])
 		return SVal{App("typeof", SInt, f.asTerm(x.V)), ti}
@@ -730,7 +753,7 @@ func (se *specEnv) call(e *SExpr) SVal {
 func (se *specEnv) lookupSpecFunc(name string) *SpecFunc {
 	cs := se.f.ctx.eng.contracts
 	if pkg := se.pkg(); pkg != nil {
-		if sf, ok := cs.SpecFuncs[pkg.Name()+"."+name]; ok {
+		if sf, ok := cs.SpecFuncs[pkgID(pkg)+"."+name]; ok {
 			return sf
 		}
 	}
@@ -986,13 +1009,29 @@ func (se *specEnv) existsFn(e *SExpr) SVal {
 			cnt := 0
 			for i := len(sks) - 1; i >= 0 && cnt < 4; i-- {
 				sk := sks[i]
-				if len(sk.sorts) != 1 || sk.sorts[0] != as || sk.res != rs {
+				if sk.res != rs || len(sk.sorts) == 0 || sk.sorts[len(sk.sorts)-1] != as {
+					continue
+				}
+				// a skolem function introduced under universal binders is applied to the binders in
+				// scope here (same number and sorts)
+				lead := sk.sorts[:len(sk.sorts)-1]
+				if len(lead) != len(se.binders) {
+					continue
+				}
+				okLead := true
+				for j, b := range se.binders {
+					if b.S != lead[j] {
+						okLead = false
+					}
+				}
+				if !okLead {
 					continue
 				}
 				cnt++
 				n := se.fork()
 				skn := sk.name
-				bind(n, func(a *Term) *Term { return App(skn, rs, a) })
+				outer := append([]*Term{}, se.binders...)
+				bind(n, func(a *Term) *Term { return App(skn, rs, append(append([]*Term{}, outer...), a)...) })
 				disj = append(disj, n.evalKeepPol(e.Args[0]))
 			}
 		}
